@@ -508,7 +508,7 @@ func ParseDuration(s string) (Duration, error) {
 // returns the nearest floating-point number rounded using IEEE754 unbiased
 // rounding.
 func ParseFloat(s string) (float64, error) {
-	if strings.HasPrefix(s, "0x") {
+	if strings.ContainsAny(s, "xX") {
 		return 0, fmt.Errorf("parseFloat: parsing %q: invalid syntax", s)
 	}
 	f, err := strconv.ParseFloat(s, 64)
